@@ -4,6 +4,7 @@ import (
 	"fmt"
 	"go/token"
 	"go/types"
+	"math"
 	"reflect"
 	"strconv"
 	"strings"
@@ -126,6 +127,28 @@ func (m *Machine) fmtValue(fr *frame, v value, t types.Type, verb byte, lenient 
 	case *types.Interface:
 		itf := v.(iface)
 		return m.fmtValue(fr, itf.v, itf.t, verb, lenient)
+	case *types.Struct:
+		// {f1 f2 ...}: fields are printed without consulting their methods when unexported;
+		// only plain %v of exported-field structs is modelled
+		if verb != 'v' {
+			break
+		}
+		out := conc("{")
+		for i, fv := range v.(structure) {
+			if !u.Field(i).Exported() {
+				panic(unsupported("fmt model: struct with unexported field " + t.String()))
+			}
+			if i > 0 {
+				out = m.strConcat(out, conc(" "))
+			}
+			ft := u.Field(i).Type()
+			ev := fv
+			if itf, ok := fv.(iface); ok {
+				ft, ev = itf.t, itf.v
+			}
+			out = m.strConcat(out, m.fmtValue(fr, ev, ft, 'v', lenient))
+		}
+		return m.strConcat(out, conc("}"))
 	case *types.Pointer:
 		if lenient {
 			return conc("0xc000000000")
@@ -317,6 +340,50 @@ func registerModels(m *Machine) {
 		return m.call(fr, token.NoPos, ep.Func("New"), []value{s})
 	}
 
+	// ---- errors.As (the library version goes through reflectlite) ----
+	in["errors.As"] = func(m *Machine, fr *frame, a []value) value {
+		err := a[0].(iface)
+		tgt := a[1].(iface)
+		pt, ok := tgt.t.Underlying().(*types.Pointer)
+		tp, _ := tgt.v.(*value)
+		if !ok || tp == nil {
+			panic(rtPanic("errors: target must be a non-nil pointer"))
+		}
+		elem := pt.Elem()
+		_, elemIsIface := elem.Underlying().(*types.Interface)
+		var walk func(e iface, depth int) bool
+		walk = func(e iface, depth int) bool {
+			if e.t == nil || depth > 16 {
+				return false
+			}
+			if types.AssignableTo(e.t, elem) {
+				if elemIsIface {
+					m.store(tp, e)
+				} else {
+					m.store(tp, e.v)
+				}
+				return true
+			}
+			if hasMethod(e.t, "As") {
+				panic(unsupported("errors.As model: error type with an As method"))
+			}
+			if hasMethod(e.t, "Unwrap") {
+				switch r := m.callMethod(fr, e, "Unwrap").(type) {
+				case iface:
+					return walk(r, depth+1)
+				case []value:
+					for _, x := range r {
+						if walk(x.(iface), depth+1) {
+							return true
+						}
+					}
+				}
+			}
+			return false
+		}
+		return m.T.Bool(walk(err, 0))
+	}
+
 	// ---- encoding/json ----
 	in["encoding/json.Marshal"] = func(m *Machine, fr *frame, a []value) value {
 		itf := a[0].(iface)
@@ -350,8 +417,12 @@ func (m *Machine) jsonMarshal(fr *frame, v value, t types.Type, escapeHTML bool)
 			out = append(out, m.T.Const(8, uint64(s[i])))
 		}
 	}
+	var failed *iface
 	var walk func(v value, t types.Type)
 	walk = func(v value, t types.Type) {
+		if failed != nil {
+			return
+		}
 		if t == nil {
 			lit("null")
 			return
@@ -381,7 +452,17 @@ func (m *Machine) jsonMarshal(fr *frame, v value, t types.Type, escapeHTML bool)
 			return
 		}
 		if hasMethod(t, "MarshalText") {
-			panic(unsupported("json model: type with MarshalText " + t.String()))
+			// encoding.TextMarshaler: the text is encoded as a JSON string
+			if p, ok := v.(*value); ok && p == nil {
+				lit("null")
+				return
+			}
+			res := m.callMethod(fr, iface{t, v}, "MarshalText").(tuple)
+			if e := res[1].(iface); e.t != nil {
+				panic(unsupported("json model: MarshalText returned an error"))
+			}
+			out = append(out, m.jsonString(fr, m.mkStr(valuesToBytes(res[0].([]value))), escapeHTML)...)
+			return
 		}
 		switch u := t.Underlying().(type) {
 		case *types.Basic:
@@ -403,7 +484,16 @@ func (m *Machine) jsonMarshal(fr *frame, v value, t types.Type, escapeHTML bool)
 					lit(strconv.FormatUint(c, 10))
 				}
 			case u.Info()&types.IsFloat != 0:
-				lit(strconv.FormatFloat(v.(float64), 'g', -1, 64))
+				f := v.(float64)
+				if math.IsNaN(f) || math.IsInf(f, 0) {
+					// encoding/json: &UnsupportedValueError{v, strconv.FormatFloat(f, 'g', -1, bits)}
+					ut := m.Prog.ImportedPackage("encoding/json").Type("UnsupportedValueError").Type()
+					var ev value = m.zero(ut)
+					ev.(structure)[1] = conc(strconv.FormatFloat(f, 'g', -1, 64))
+					failed = &iface{t: types.NewPointer(ut), v: &ev}
+					return
+				}
+				lit(strconv.FormatFloat(f, 'g', -1, 64))
 			default:
 				panic(unsupported("json model: basic type " + t.String()))
 			}
@@ -527,6 +617,9 @@ func (m *Machine) jsonMarshal(fr *frame, v value, t types.Type, escapeHTML bool)
 		}
 	}
 	walk(v, t)
+	if failed != nil {
+		return nil, failed
+	}
 	return out, nil
 }
 
